@@ -7,9 +7,12 @@ from lib.core import Case
 class RefSList:
     """Reference semantics on Python lists (independent of the Coq model)."""
 
-    def __init__(self, nlists, keys):
+    def __init__(self, nlists, keys, offs=None):
         self.L = [[] for _ in range(nlists)]
         self.keys = keys
+        # which node member each list object threads its elements through (header offs); it travels with the contents
+        # on swap, and a concat between lists of different members leaves both lists as they are
+        self.offs = list(offs) + [0] * (nlists - len(offs)) if offs else [0] * nlists
 
     def key(self, e):
         return self.keys[e] if e < len(self.keys) else 0
@@ -60,6 +63,8 @@ class RefSList:
         if o == 'concat':
             if a[0] == a[1] or not (0 <= a[1] < len(L)):
                 return ('skip',)
+            if self.offs[a[0]] != self.offs[a[1]]:
+                return ('out', [])
             L[a[0]] += L[a[1]]
             L[a[1]] = []
             return ('out', [])
@@ -67,6 +72,7 @@ class RefSList:
             if not (0 <= a[1] < len(L)):
                 return ('skip',)
             L[a[0]], L[a[1]] = L[a[1]], L[a[0]]
+            self.offs[a[0]], self.offs[a[1]] = self.offs[a[1]], self.offs[a[0]]
             return ('out', [])
         if o == 'foreach':
             l = L[a[0]]
@@ -116,7 +122,30 @@ class C13(Spec):
     extra_models = ('slistp',)
     driver = 'slist'
     lib_srcs = ['slist.c']
-    header_words = ('keys', 'nlists', 'cmpmode', 'vsign', 'offs')
+    header_words = ('keys', 'nlists', 'cmpmode', 'vsign', 'offs', 'mixedconcat')
+
+    def oracle_only(self, c):
+        # concat between lists threaded through different node members: the code leaves both lists alone, the model has
+        # no notion of the member offset -> judged by the reference oracle alone
+        return any(h.split()[0] == 'mixedconcat' for h in c.header)
+
+    def more_variants(self, cases, tier, seed):
+        out, n = [], 0
+        for c in cases:
+            nl = 1
+            for h in c.header:
+                w = h.split()
+                if w[0] == 'nlists':
+                    nl = int(w[1])
+                if w[0] in ('offs', 'mixedconcat'):
+                    nl = 0
+            if nl < 2 or not any(o.split()[0] == 'concat' for o in c.ops) or any(o.split()[0] == 'fmove' for o in c.ops):
+                continue
+            n += 1
+            if n % 3 == 0:
+                out.append(Case(c.name + 'm', c.header + ['offs ' + ' '.join(str(i % 2) for i in range(nl)), 'mixedconcat 1'],
+                                c.ops, c.origin))
+        return out
     vsign_every = 2
     rule = ('cases = corpus + one case per edge of the breadth-first closure of the Coq model over a small scope '
             '(shortest path to the state + the operation) + seeded random histories; a case is non-trivial when '
@@ -139,7 +168,11 @@ class C13(Spec):
 
     def oracle(self, case, impl):
         keys, nl = self.header(case)
-        ref = RefSList(nl, keys)
+        offs = []
+        for h in case.header:
+            if h.split()[0] == 'offs':
+                offs = [int(x) for x in h.split()[1:]]
+        ref = RefSList(nl, keys, offs)
         for i, op in enumerate(case.ops):
             r = ref.apply(op)
             if r[0] == 'skip':
